@@ -105,6 +105,9 @@ func (rn *runner) direct(in *In) {
 	if in.Garbage {
 		rn.dw.Count("insitu-garbage")
 	}
+	if in.InPlace {
+		rn.dw.Count("insitu-inplace")
+	}
 	if of.Err {
 		rn.dw.Count("outcome:error(" + in.Kind + ")")
 	} else if of.Panic != "" {
